@@ -55,6 +55,9 @@ pub struct Served {
     pub ts_expires: String,
     pub snap_expires: String,
     pub tg_expires: String,
+    /// length of an extra (signed, unknown) string member in timestamp / snapshot / targets, so
+    /// that the serialised size of a role can shrink or grow independently of its version
+    pub pad: [usize; 3],
 }
 
 impl Served {
@@ -67,7 +70,12 @@ impl Served {
             ts_expires: FAR.into(),
             snap_expires: FAR.into(),
             tg_expires: FAR.into(),
+            pad: [0; 3],
         }
+    }
+    pub fn with_pad(mut self, pad: [usize; 3]) -> Self {
+        self.pad = pad;
+        self
     }
     pub fn tuple(&self) -> String {
         format!(
@@ -93,11 +101,20 @@ pub fn cycle_files(ep: &Epochs, published: u64, s: &Served) -> BTreeMap<String, 
     }
     let cfg = &ep.cfgs[(published - 1) as usize];
     let content = b"history target".to_vec();
-    let tg = targets_signed(
-        s.tg,
-        &s.tg_expires,
-        vec![("h.txt".to_string(), target_entry(&content, None))],
-        None,
+    let padded = |mut j: J, n: usize| -> J {
+        if n > 0 {
+            j.set("zz-pad", "p".repeat(n));
+        }
+        j
+    };
+    let tg = padded(
+        targets_signed(
+            s.tg,
+            &s.tg_expires,
+            vec![("h.txt".to_string(), target_entry(&content, None))],
+            None,
+        ),
+        s.pad[2],
     );
     // the client asks for `<listed>.targets.json` under consistent snapshots
     let tg_path_version = s.listed.unwrap_or(s.tg);
@@ -110,12 +127,12 @@ pub fn cycle_files(ep: &Epochs, published: u64, s: &Served) -> BTreeMap<String, 
         Some(l) => vec![("targets.json".to_string(), metafile(l, None, None))],
         None => vec![],
     };
-    let snap = snapshot_signed(s.snap, &s.snap_expires, meta);
+    let snap = padded(snapshot_signed(s.snap, &s.snap_expires, meta), s.pad[1]);
     files.insert(
         meta_path(ep.consistent, s.snap, "snapshot"),
         render(&sign_with(&snap, &signers(&cfg.snapshot)), Style::Compact),
     );
-    let ts = timestamp_signed(s.ts, &s.ts_expires, metafile(s.snap, None, None));
+    let ts = padded(timestamp_signed(s.ts, &s.ts_expires, metafile(s.snap, None, None)), s.pad[0]);
     files.insert(
         meta_path(ep.consistent, s.ts, "timestamp"),
         render(&sign_with(&ts, &signers(&cfg.timestamp)), Style::Compact),
